@@ -152,11 +152,12 @@ func c14Predict(w *c14World, r c14Req) c14St {
 	switch r.Fault {
 	case "", "fetch-err", "upload-ap":
 		n = c14St{"cp|" + cp, cp, "cp|" + cp}
-	case "replace-na":
+	case "replace-na", "replace-cancel-na":
 		n.cached = "nil"
-	case "replace-ap":
+	case "replace-ap", "replace-cancel-ap":
 		n.lock, n.cached = "cp|"+cp, "nil"
-	case "upload-na":
+	case "upload-na", "replace-cancel-ok":
+		// (after a disconnect the publication is refused with the context's error)
 		n.lock, n.cached = "cp|"+cp, cp
 	}
 	return n
